@@ -83,6 +83,7 @@ class Interp:
         self._maybe: dict = {}
         self._comp_ctx = None
         self._assuming: set = set()
+        self.global_effects = []
 
     def index_function(self, fnode):
         """syntactic ordinals of loops and comprehensions (source order) - sidecar contracts are keyed by them"""
@@ -425,6 +426,8 @@ class Interp:
         if isinstance(obj, FuncRef):
             if attr == "__code__":
                 return Record("code", {"co_name": obj.co_name or obj.dotted.rsplit(".", 1)[1], "_func": obj})
+            if attr in ("__globals__", "__defaults__", "__closure__", "__kwdefaults__", "__doc__", "__dict__", "__name__"):
+                return Record("funcattr", {"of": obj.dotted, "attr": attr})
             raise Unsupported(f"attribute {attr} of function")
         if isinstance(obj, Record):
             if attr in obj.fields:
@@ -865,10 +868,15 @@ class Interp:
             bound[nme] = v
         if len(pos) > len(names):
             raise Unsupported(f"too many positional args calling {c.qualname}")
+        kwname = fi.node.args.kwarg.arg if (fi is not None and fi.node.args.kwarg is not None) else None
+        if kwname and kwname in c.params:
+            bound[kwname] = {}
         for k, v in kwargs.items():
             if k in names or k in c.params:
                 bound[k] = v
-            elif fi is not None and fi.node.args.kwarg is not None:
+            elif kwname and kwname in c.params:
+                bound[kwname][k] = v
+            elif kwname:
                 bound[k] = v
             else:
                 raise PyRaise(ExcVal("TypeError", (f"unexpected keyword {k}",)))
@@ -883,6 +891,7 @@ class Interp:
                     raise Unsupported(f"missing argument {nme} calling {c.qualname}")
         env = {}
         uf_args = []
+        uf_suffix = ""
         for nme, tystr in c.params.items():
             if nme not in bound:
                 raise Unsupported(f"contract {c.qualname}: parameter {nme} not bound")
@@ -906,6 +915,15 @@ class Interp:
                         uf_args.append(lift(v.value if isinstance(v, EnumVal) else v))
                 elif t == "PyList":
                     uf_args.append(lift(v) if v else None)
+                elif t == "PyFunc" and isinstance(v, FuncRef):
+                    uf_args.append(lift(f"{v.dotted}|{v.co_name or v.dotted.rsplit('.', 1)[1]}"))
+                elif t == "PyDict" and isinstance(v, dict):
+                    uf_suffix += "<" + ",".join(sorted(v)) + ">"
+                    for kk in sorted(v):
+                        try:
+                            uf_args.append(lift(v[kk]))
+                        except core.LiftError:
+                            pass
                 continue
             ty = parse_ty(t)
             try:
@@ -958,12 +976,12 @@ class Interp:
                     return SV(fty, fn(*[a.t for a in uf_args]))
                 result = make_record(rt[4:], mk)
             elif rt.startswith("Py"):
-                result = None
+                result = c.ret_py(self, st, env) if c.ret_py is not None else None
             else:
                 rty = parse_ty(rt)
                 if c.pure:
                     if uf_args:
-                        fn = core.uf(c.qualname, *[a.ty.sort() for a in uf_args], rty.sort())
+                        fn = core.uf(c.qualname + uf_suffix, *[a.ty.sort() for a in uf_args], rty.sort())
                         result = SV(rty, fn(*[a.t for a in uf_args]))
                     else:
                         result = SV(rty, z3.Const(c.qualname, rty.sort()))
@@ -1484,16 +1502,23 @@ class Interp:
             if isinstance(base, ObjUnderConstruction):
                 base.fields[target.attr] = v
                 return
+            if isinstance(base, FuncRef) and base.fresh:
+                if target.attr == "__code__" and isinstance(v, Record):
+                    st.env[target.value.id] = FuncRef(base.dotted, co_name=v.fields.get("co_name"), fresh=True)
+                return  # attribute of a freshly created function object: no global effect
+            if isinstance(base, FuncRef):
+                self.global_effects.append((base.dotted, target.attr, v))
+                if target.attr != "__code__":
+                    return
             if isinstance(base, FuncRef) and target.attr == "__code__":
                 # rebinding the code object of a module-level function: global effect
-                self.global_effects.append((base.dotted, "__code__", v))
                 st.env[target.value.id] = FuncRef(base.dotted, co_name=v.fields.get("co_name") if isinstance(v, Record) else None)
                 return
             raise Unsupported(f"attribute assignment {ast.unparse(target)}")
         else:
             raise Unsupported("assignment target")
 
-    global_effects: list = []
+    global_effects: list = []  # reset per instance in __init__
 
     def st_AugAssign(self, s, st):
         op = self._BIN.get(type(s.op))
